@@ -36,14 +36,16 @@ pub struct Setup {
     pub step_size: u64,
     /// 0 = trading on, 1 = constructed with trading off, 2 = switched off after the set-up step,
     /// 3 = constructed with trading off, the set-up leaves the book crossed, trading is switched ON
-    /// right before the batch is submitted (the step that resumes trading on a crossed book)
+    /// right before the batch is submitted (the step that resumes trading on a crossed book);
+    /// 4 = trading on and a redundant enable_trading() called between two submissions of the batch,
+    /// 5 = constructed with trading off and a redundant disable_trading() between two submissions
     pub trading: u8,
 }
 
 pub const DEFAULT_SETUP: Setup = Setup { step_size: 100_000, trading: 0 };
 
 fn setup_json(s: &Setup) -> serde_json::Value {
-    let tr = ["on", "off at construction", "disabled after the set-up step", "off at construction, book left crossed, enabled right before the batch"][s.trading as usize];
+    let tr = ["on", "off at construction", "disabled after the set-up step", "off at construction, book left crossed, enabled right before the batch", "on, a redundant enable_trading() between two submissions", "off at construction, a redundant disable_trading() between two submissions"][s.trading as usize];
     json!({"step_size": s.step_size, "trading": tr})
 }
 
@@ -55,7 +57,7 @@ pub fn run_batch<const A: usize>(multi: bool, items: &[Item], script: &[Ans], se
 
 pub fn run_batch_in<const A: usize>(su: Setup, multi: bool, items: &[Item], script: &[Ans], seed: u64) -> Result<(Vec<usize>, u64, u64), String> {
     let ticks = vec![1u32; A];
-    let mut env = AnyEnv::<A, 3>::make(multi, 0, &ticks, su.step_size, su.trading != 1 && su.trading != 3);
+    let mut env = AnyEnv::<A, 3>::make(multi, 0, &ticks, su.step_size, su.trading != 1 && su.trading != 3 && su.trading != 5);
     // resting targets and a deep ask quote per asset
     let mut targets: Vec<Option<(usize, usize)>> = vec![None; items.len()];
     for a in 0..A {
@@ -95,6 +97,14 @@ pub fn run_batch_in<const A: usize>(su: Setup, multi: bool, items: &[Item], scri
     let start = env.book(0).get_time();
     let mut ids: Vec<Option<(usize, usize)>> = vec![None; items.len()];
     for (i, it) in items.iter().enumerate() {
+        if i > 0 && i == items.len() / 2 {
+            // a switch that changes nothing, called while instructions are waiting
+            if su.trading == 4 {
+                env.enable();
+            } else if su.trading == 5 {
+                env.disable();
+            }
+        }
         match it.kind {
             Kind::Limit => ids[i] = Some(env.place(it.asset, true, 1, 3, Some(200 + i as u32)).map_err(|_| "place")?),
             Kind::Market => ids[i] = Some(env.place(it.asset, true, 1, 3, None).map_err(|_| "place")?),
@@ -504,7 +514,7 @@ fn content_independence<const A: usize>(acc: &Acc, multi: bool, n: usize, summar
 
 fn content_independence_in<const A: usize>(acc: &Acc, su: Setup, multi: bool, n: usize, summary: &mut Vec<serde_json::Value>) {
     // (a re-pricing modify is observed through the trade it causes: only with trading on)
-    let kinds: Vec<Kind> = if su.trading == 0 || su.trading == 3 { vec![Kind::Limit, Kind::Market, Kind::Cancel, Kind::Modify, Kind::CancelNew, Kind::ModifyNew, Kind::CancelDead] } else { vec![Kind::Limit, Kind::Market, Kind::Cancel, Kind::CancelNew, Kind::CancelDead] };
+    let kinds: Vec<Kind> = if su.trading == 0 || su.trading == 3 || su.trading == 4 { vec![Kind::Limit, Kind::Market, Kind::Cancel, Kind::Modify, Kind::CancelNew, Kind::ModifyNew, Kind::CancelDead] } else { vec![Kind::Limit, Kind::Market, Kind::Cancel, Kind::CancelNew, Kind::CancelDead] };
     let mut words: Vec<Vec<Item>> = vec![vec![]];
     for _ in 0..n {
         let mut next = Vec::new();
@@ -629,12 +639,14 @@ pub fn c15(tier: &str) -> i32 {
             Setup { step_size: 100_000, trading: 2 },
             Setup { step_size: 2, trading: 2 },
             Setup { step_size: 100_000, trading: 3 },
+            Setup { step_size: 100_000, trading: 4 },
+            Setup { step_size: 100_000, trading: 5 },
         ] {
             exact_small_in::<1>(&acc, su, false, n, &mut setups);
             exact_small_in::<2>(&acc, su, true, n, &mut setups);
         }
     }
-    for su in [Setup { step_size: 2, trading: 0 }, Setup { step_size: 100_000, trading: 1 }, Setup { step_size: 100_000, trading: 2 }, Setup { step_size: 100_000, trading: 3 }] {
+    for su in [Setup { step_size: 2, trading: 0 }, Setup { step_size: 100_000, trading: 1 }, Setup { step_size: 100_000, trading: 2 }, Setup { step_size: 100_000, trading: 3 }, Setup { step_size: 100_000, trading: 4 }, Setup { step_size: 100_000, trading: 5 }] {
         content_independence_in::<1>(&acc, su, false, 3, &mut content);
         content_independence_in::<2>(&acc, su, true, 3, &mut content);
     }
